@@ -88,6 +88,15 @@ def baseContext (now : Nat) (incoming : Ctx) (timeoutVals : List Bytes) : Ctx :=
 
 /-! ### (C) Close racing Stream -/
 
+/-- how `waitForReady` ends on a connection that has been closed in the meantime (state Shutdown, which never
+    changes again). `fx = true`: the code after the fix (returns when it sees Shutdown); `fx = false`: the original
+    code (`WaitForStateChange(ctx, Shutdown)` only ends with the halved context — never, without a deadline). -/
+inductive WaitOut | atOnce | atHalfDeadline | never
+  deriving DecidableEq, Repr
+
+def waitOnClosed (fx : Bool) (hasDeadline : Bool) : WaitOut :=
+  if fx then .atOnce else if hasDeadline then .atHalfDeadline else .never
+
 /-- value behind `cc.state` (atomic pointer): which of the two fields is non-nil -/
 structure PState where
   conn : Bool
@@ -125,7 +134,7 @@ def rstep (s : RState) : RLabel → Option RState
   | .stream i =>
     match s.spc i with
     | .idle => some { s with spc := upd s.spc i (.loaded s.ptr) }            -- state := cc.state.Load()
-    | .loaded p => some { s with spc := upd s.spc i (.waited p) }            -- if state.conn != nil { waitForReady(state.conn) }
+    | .loaded p => some { s with spc := upd s.spc i (.waited p) }            -- if state.conn != nil { waitForReady(state.conn) }: always returns (bounded by the halved deadline; at once on a closed conn, `waitOnClosed true`)
     | .waited p =>                                                           -- return state.conn, state.err
       let r := if p.err then SOut.unavailable                                -- if err != nil { return nil, err }
         else if !p.conn then SOut.nilDeref                                   -- conn.NewStream on a nil conn
